@@ -37,6 +37,14 @@ CHECKS["C19"] = {
             "concurrency = Raft linearisability, assumed; HashMap::get_mut contract and Arc<String> key model are assumed (shims/std_extra.rs).",
 }
 
+CHECKS["C18"] = {
+    "text": "Proof (Verus, unbounded) of the namespace privilege decision on the real PrivilegeGroup / NamespacePrivilegeGroup: check == whitelisted && !blacklisted "
+            "(blacklist wins, *_is_all switches, missing lists), default-namespace names are mapped to the one default key and then judged by the same predicate, "
+            "flag byte round trip.",
+    "note": "NOT decided: that each console handler calls the check before acting (actix handlers/macros are outside Verus) — a handler that forgets the check is not detected. "
+            "bitflags! constants are modelled (glue.rs) and the macro text is re-checked on every run; HashSet::contains / key model per vstd + A-KEY.",
+}
+
 NOT_APPLICABLE = {
     "C01": "equation between the states of seven actors across stop/restart; effects travel through Addr::send futures — no function-shaped contract can state it (DESIGN §6)",
     "C04": "crash points between file writes of several actors need a crash-Hoare logic over an external resource; neither Verus nor Kani models intermediate disk states (DESIGN §6)",
@@ -55,5 +63,4 @@ NOT_APPLICABLE = {
     "C14": "not yet built in this revision (planned: U-processrange)",
     "C16": "not yet built in this revision (planned: U-grpcauth)",
     "C17": "not yet built in this revision (planned: U-permission)",
-    "C18": "not yet built in this revision (planned: U-privilege)",
 }
